@@ -66,6 +66,8 @@ static uvw u_view(const ut_set *c, uint64_t k)
 }
 #define SNAP() uvw g0 = u_view(self, G_g); uint64_t used0 = USED(self); cstl_ms ttl0 = self->m_uniform_ttl; bool held0 = self->m_lock.m_lock.held; uint64_t acq0 = self->m_lock.m_lock.acq
 #define SAME(a, b) ((b).has == (a).has && (!(a).has || (b).exp == (a).exp))
+/* purged view equality: b is the view after, a the view before the call */
+#define PURGED_SAME(a, alive, b) ((b).has == (alive) && (!(b).has || (b).exp == (a).exp))
 
 void h_do_find(void)
 {
@@ -164,6 +166,32 @@ void h_do_insert_update(void)
     __CPROVER_assert(0, "vacuity sentinel");
 }
 
+/* do_prune, the purge loop: for EVERY number of stored entries, BOUNDED in the number of entries that are expired at the
+ * call (at most PRUNE_K; the loop and the list's erase(range) are unwound).  A bounded stand-in, labelled so. */
+#define PRUNE_K 2
+void h_do_prune(void)
+{
+    ut_set *self = u_bind();
+    cstl_tp now;
+    __CPROVER_assume(self->m_lock.m_lock.held);
+    cstl_iter n1 = NX(HEAD(self)), n2 = NX(n1), n3 = NX(n2);
+    cstl_iter nodes[] = {n1, n2, n3, NX(n3)};
+    uint64_t  keys[] = {G_g};
+    u_assume_wf(self, nodes, 4, keys, 1);
+    /* the bound: the node at rank PRUNE_K, if there is one, has not expired (the list is sorted: nor has any behind it) */
+    __CPROVER_assume(!u_node(self, n1) || !u_node(self, n2) || !u_node(self, n3) || self->P_L0.val[n3].m_expire_time > now);
+    SNAP();
+    bool g_live = g0.has && g0.exp > now;
+    uint64_t r = ut_set__do_prune(self, now);
+    uvw g1 = u_view(self, G_g);
+    ASSERT_WF("ut_set do_prune");
+    __CPROVER_assert(PURGED_SAME(g0, g_live, g1), "U ut_set do_prune: all and only the entries with deadline <= now leave; survivors keep their deadline [C03 C04 C05 C17]");
+    __CPROVER_assert(USED(self) + r == used0 && r <= PRUNE_K, "U ut_set do_prune: reports the number removed [C02 C17]");
+    __CPROVER_assert(!u_node(self, G_i) || self->P_L0.val[G_i].m_expire_time > now, "U ut_set do_prune: no expired entry remains [C02 C04 C17]");
+    __CPROVER_assert(r != PRUNE_K, "vacuity sentinel: a purge of PRUNE_K entries is reachable");
+    __CPROVER_assert(0, "vacuity sentinel");
+}
+
 /* ================= public single-key methods: lock; now; do_prune; helper; unlock =================
  * The purge loop do_prune is not within route U (its loop erases map entries and then a list range: the state inside
  * the loop is not wf).  The calls of do_prune are REPLACED BY ITS CONTRACT (goto-instrument --replace-calls
@@ -241,8 +269,6 @@ uint64_t ut_set__do_prune_contract(ut_set *self, cstl_tp now)
     uint64_t usedA = USED(self);                                       \
     uvw gA = u_view(self, G_g), kA = u_view(self, (k));                \
     bool g_live = gA.has && gA.exp > G_NOW, k_live = kA.has && kA.exp > G_NOW
-/* purged view equality: b is the view after, a the view before the call */
-#define PURGED_SAME(a, alive, b) ((b).has == (alive) && (!(b).has || (b).exp == (a).exp))
 #define PUB_POST(fn)                                                                                                    \
     __CPROVER_assert(PRUNED, "spec sanity: the purge contract was used");                                               \
     __CPROVER_assert(u_inv0(self), "U " fn ": wf scalars (both containers have the same size, sentinel) [C01 C02 C03 C08]");   \
